@@ -19,7 +19,7 @@ from ..util import (
     json_b64decode,
     urlsafe_b64encode,
 )
-from ..errors import BadSignatureError
+from ..errors import BadSignatureError, DecodeError
 from .registry import JWSRegistry
 
 
@@ -100,6 +100,8 @@ def _extract_json(value: FlattenedJSONSerialization) -> t.Optional[FlattenedJSON
     if "protected" in value:
         protected_segment = to_bytes(value["protected"])
         protected = json_b64decode(protected_segment)
+        if not isinstance(protected, dict):
+            raise DecodeError("Invalid header")
     else:
         protected = None
 
